@@ -325,16 +325,33 @@ def go_build(cmd, extra_tags=(), race=False):
         os.makedirs(os.path.dirname(out), exist_ok=True)
         tags = ",".join(("verif",) + tuple(extra_tags))
         args = ["go", "build", "-overlay", ov, "-tags", tags, "-o", out]
+        scratch = None
         if os.environ.get("VERIF_COVER"):
-            # tools/coverage.sh: statement coverage of the implementation under the generated cases (GOCOVERDIR is inherited by the runs)
-            args[2:2] = ["-cover", "-coverpkg=github.com/godaddy/asherah/go/appencryption/...,github.com/godaddy/asherah/go/securememory/...,"
-                                   "github.com/godaddy/asherah/server/go/..."]
+            # tools/coverage.sh: coverage of the implementation under the generated cases (GOCOVERDIR is inherited by the runs).
+            # `go build -cover` cannot read -overlay files, so the overlay is materialised in a scratch copy of the sources.
+            scratch = "/tmp/verif-cover-src-%d" % os.getpid()
+            shutil.rmtree(scratch, ignore_errors=True)
+            os.makedirs(scratch)
+            run(["rsync", "-a", "--exclude", ".git", os.path.join(REPO, "go"), os.path.join(REPO, "server"), scratch + "/"])
+            for target, src in json.load(open(ov))["Replace"].items():
+                dest = scratch + target[len(REPO):]
+                os.makedirs(os.path.dirname(dest), exist_ok=True)
+                shutil.copy(src, dest)
+            mod = open(os.path.join(HARNESS, "go.mod")).read().replace("=> " + REPO + "/", "=> " + scratch + "/")
+            open(os.path.join(scratch, "cover.mod"), "w").write(mod)
+            shutil.copy(os.path.join(HARNESS, "go.sum"), os.path.join(scratch, "cover.sum"))
+            rc0, so0, se0, _ = run(["go", "list", "-modfile", os.path.join(scratch, "cover.mod"), "-tags", tags, "-deps", "./cmd/" + cmd],
+                                   cwd=HARNESS, env=dict(GOENV), timeout=300)
+            pk = ",".join(["verif/harness/..."] + [l for l in so0.split() if "godaddy/asherah" in l])   # the main module must be listed too
+            args = ["go", "build", "-modfile", os.path.join(scratch, "cover.mod"), "-cover", "-coverpkg=" + pk, "-tags", tags, "-o", out]
         env = dict(GOENV)
         if race:
             args.insert(2, "-race")
             env["CGO_ENABLED"] = "1"
         args.append("./cmd/" + cmd)
         rc, so, se, dt = run(args, cwd=HARNESS, env=env, timeout=900)
+        if scratch:
+            shutil.rmtree(scratch, ignore_errors=True)
         return out, rc == 0, so + se
     finally:
         shutil.rmtree(d, ignore_errors=True)
